@@ -81,9 +81,14 @@ Theorem C08_chain_model_ok : forall chain cs, chain_dom chain cs = true ->
 Proof. exact run_model_ok. Qed.
 Print Assumptions C08_chain_model_ok.
 
-(* the property oracle holds of the model: closed form at the coarsest resolution after one pass, nothing changes in a second *)
+(* the model run twice: the second pass over its own output returns it unchanged; hence the property oracle (pass 1 within
+   one unit of the original times - final end free with SAMI - and pass 2 = pass 1) holds of the model *)
+Theorem C08_chain_model_second_pass : forall chain cs, chain_dom chain cs = true ->
+  (do o1 <- run_model chain cs; run_model chain o1) = Ok (expected chain cs).
+Proof. exact run_model_second_pass. Qed.
+Print Assumptions C08_chain_model_second_pass.
 Theorem C08_chain_model_meets_oracle : forall chain cs, chain_dom chain cs = true ->
-  ok_chain chain cs (run_model chain cs) (do o1 <- run_model chain cs; Ok (run chain o1)) = true.
+  ok_chain chain cs (run_model chain cs) (do o1 <- run_model chain cs; run_model chain o1) = true.
 Proof. exact run_model_meets_oracle. Qed.
 Print Assumptions C08_chain_model_meets_oracle.
 
@@ -104,11 +109,11 @@ Print Assumptions C08_mdvd_roundtrip_string.
 
 (* ---- the domain restriction is necessary: cues shorter than the resolution (known findings) ---- *)
 Theorem C08_short_cues_srt_merge_refuted :
-  exists chain cs, sorted_from 1 0 82800000000 cs = true /\ run_model chain cs <> Ok (expected chain cs).
+  exists chain cs, sorted_from 1 0 86396000000 cs = true /\ run_model chain cs <> Ok (expected chain cs).
 Proof. exact short_cues_srt_merge_refuted. Qed.
 Print Assumptions C08_short_cues_srt_merge_refuted.
 Theorem C08_short_cue_sami_end_refuted :
-  exists cs, sorted_from 1 0 82800000000 cs = true /\ hop FSami cs <> Ok (pi FSami cs).
+  exists cs, sorted_from 1 0 86396000000 cs = true /\ hop FSami cs <> Ok (pi FSami cs).
 Proof. exact short_cue_sami_end_refuted. Qed.
 Print Assumptions C08_short_cue_sami_end_refuted.
 
@@ -135,3 +140,23 @@ Example C08_ex_subframe_cue :
   chain_dom [FSrt; FMdvd; FDfxp] [(4000000, 4030000); (6000000, 8000000)] = true /\
   run_model [FSrt; FMdvd; FDfxp] [(4000000, 4030000); (6000000, 8000000)] = Ok [(4000000, 4000000); (6000000, 8000000)].
 Proof. vm_compute. split; reflexivity. Qed.
+Example C08_ex_second_pass_late_sami :
+  let cs := [(86394000000, 86395999000)] in
+  chain_dom [FSami; FMdvd] cs = true /\
+  run_model [FSami; FMdvd] cs = Ok [(86394000000, 86398000000)] /\
+  (do o1 <- run_model [FSami; FMdvd] cs; run_model [FSami; FMdvd] o1) = Ok [(86394000000, 86398000000)].
+Proof. vm_compute. repeat split; reflexivity. Qed.
+Example C08_ex_set :
+  let cs := [(Str.lit "en-US", [(1234567, 5004999)]); (Str.lit "fr", [(500000, 1234567); (1234567, 9000001)])] in
+  set_dom [FDfxp; FSami] cs = true /\
+  run_model_set [FDfxp; FSami] cs
+  = Ok [(Str.lit "en-US", [(1234000, 5234000)]); (Str.lit "fr", [(500000, 1234000); (1234000, 5234000)])].
+Proof. vm_compute. split; reflexivity. Qed.
+Example C08_ex_oracle_resolution :
+  (* floor, nearest and exact are all within resolution; one unit off is not; the SAMI final end is free *)
+  ok_chain [FVtt] [(1234567, 2000999)] (Ok [(1234000, 2000000)]) (Ok [(1234000, 2000000)]) = true /\
+  ok_chain [FVtt] [(1234567, 2000999)] (Ok [(1235000, 2001000)]) (Ok [(1235000, 2001000)]) = true /\
+  ok_chain [FVtt] [(1234567, 2000999)] (Ok [(1236000, 2000000)]) (Ok [(1236000, 2000000)]) = false /\
+  ok_chain [FVtt] [(1234567, 2000999)] (Ok [(1234000, 2000000)]) (Ok [(1234000, 2000001)]) = false /\
+  ok_chain [FSami] [(1000000, 2000000)] (Ok [(1000000, 6000000)]) (Ok [(1000000, 6000000)]) = true.
+Proof. vm_compute. repeat split; reflexivity. Qed.
